@@ -197,9 +197,52 @@ let run_obj_op (ctx : ctx) (pp : ppacket) (f : string array) : string =
     end
   | _ -> "UNIMPL"
 
-let run_op (ctx : ctx) (op : string) : string =
+let err_text = function
+  | 0 -> "Invalid_name_in_a_DNS_record:_Spurious_dot_in_a_label"
+  | 1 -> "Invalid_name_in_a_DNS_record:_Label_too_long"
+  | 2 -> "Invalid_name_in_a_DNS_record:_Name_too_long"
+  | 3 -> "Invalid_name_in_a_DNS_record:_Non-ASCII_character_in_a_label"
+  | _ -> "Parse_error"
+
+(* C16: the schedule is run by the Gallina slot model; failing calls print rc=-1 *)
+let run_schedule (steps : string) : string =
+  let ops =
+    List.map
+      (fun s ->
+        match split_on ':' s with
+        | [t; a] ->
+          let t = nat_of_int (int_of_string t) in
+          if a.[0] = 'f' then CFail (t, n_of_int (1 + (int_of_string (String.sub a 1 (String.length a - 1)) mod 5)))
+          else CRead t
+        | _ -> failwith "bad schedule step")
+      (split_on '.' steps)
+  in
+  let reads = ref (run_sched slots_init ops) in
+  let outs =
+    List.map
+      (fun o ->
+        match o with
+        | CFail _ -> "rc=-1"
+        | CRead _ ->
+          (match !reads with
+           | (_, r) :: rest ->
+             reads := rest;
+             (match r with None -> "nofail" | Some m -> err_text (int_of_n m - 1))
+           | [] -> "?"))
+      ops
+  in
+  Printf.sprintf "H[%s]" (String.concat " " outs)
+
+let rec run_op (ctx : ctx) (op : string) : string =
+  if String.length op > 3 && String.sub op 0 3 = "HP|" then begin
+    (* C17: in the model every entry point is a function of its argument *)
+    match split_on '|' op with
+    | [_; x; _] -> "SAME:" ^ run_op { pp = None } x
+    | _ -> failwith "bad HP op"
+  end else
   let f = Array.of_list (split_on ',' op) in
   match f.(0) with
+  | "H" -> run_schedule f.(2)
   | "K" ->
     let p = unhex f.(1) and off = nat_of_int (int_of_string f.(2)) in
     on_res (check_compressed_name p off) (fun n -> Printf.sprintf "OK:%d" (int_of_nat n))
